@@ -140,13 +140,19 @@ func runC01(c *vh.Ctx) {
 	for _, it := range items {
 		impl, stable := evalImpl(it.n, it.env.Env)
 		enc := vh.EncExpr(it.n)
-		if stable && vh.OrderSensitive(it.n, it.env.Env) {
-			stable = false // a record literal with two differently failing entries: result depends on map order (C14 finding)
-		}
 		if !stable {
+			// the evaluator is a function of (expression, environment): four evaluations must agree.  (Until
+			// `fix: evaluate the entries of a record literal in key order` a record literal with two differently
+			// failing entries reported whichever error the Go map met first; such cases were stepped around here.)
 			unstable++
 			c.Dist("impl-nondeterministic")
-			impl = "" // record-literal multi-error order (C14); do not compare
+			cls := "impl-nondeterministic"
+			if vh.OrderSensitive(it.n, it.env.Env) {
+				cls = "record-literal-multi-error-order"
+			}
+			c.Report(vh.Finding{Class: cls, What: fmt.Sprintf("four evaluations of the same expression in the same environment gave different results (first: %q)", impl),
+				Check: "oracle", Op: "eval", Input: map[string]any{"expr": enc, "env": it.env.Name}})
+			impl = "" // no single result to compare with the model
 		}
 		idx := b.Add("eval", map[string]any{"expr": enc, "envref": b.EnvRef(it.env)}, impl, "")
 		key := b.Key(idx) + it.env.Name
